@@ -3,9 +3,13 @@ keeping a candidate only if it still violates the same (property, oracle id)."""
 import copy
 
 
-def ddmin_ops(plan, fails, max_tests=400):
+def ddmin_ops(plan, fails, max_tests=400, deadline=None):
+    import time
     ops = list(plan['ops'])
     tests = 0
+
+    def late():
+        return deadline is not None and time.time() > deadline
 
     def mk(o):
         p = copy.deepcopy(plan)
@@ -13,11 +17,11 @@ def ddmin_ops(plan, fails, max_tests=400):
         return p
 
     n = 2
-    while len(ops) >= 2 and tests < max_tests:
+    while len(ops) >= 2 and tests < max_tests and not late():
         chunk = max(1, len(ops) // n)
         reduced = False
         i = 0
-        while i < len(ops) and tests < max_tests:
+        while i < len(ops) and tests < max_tests and not late():
             cand = ops[:i] + ops[i + chunk:]
             tests += 1
             if cand and fails(mk(cand)):
@@ -33,21 +37,22 @@ def ddmin_ops(plan, fails, max_tests=400):
     return mk(ops), tests
 
 
-def shrink(plan, fails, simplify=None, max_tests=600):
+def shrink(plan, fails, simplify=None, max_tests=600, deadline=None):
     """fails(plan)->bool must be deterministic. simplify(plan) yields simpler candidate plans (engine-specific)."""
-    best, tests = ddmin_ops(plan, fails, max_tests=max_tests)
+    import time
+    best, tests = ddmin_ops(plan, fails, max_tests=max_tests, deadline=deadline)
     if simplify is not None:
         progress = True
         while progress and tests < max_tests:
             progress = False
             for cand in simplify(best):
                 tests += 1
-                if tests >= max_tests:
+                if tests >= max_tests or (deadline is not None and time.time() > deadline):
                     break
                 if fails(cand):
                     best = cand
                     progress = True
                     break
-        best2, t2 = ddmin_ops(best, fails, max_tests=max(0, max_tests - tests))
+        best2, t2 = ddmin_ops(best, fails, max_tests=max(0, max_tests - tests), deadline=deadline)
         best, tests = best2, tests + t2
     return best, tests
